@@ -161,6 +161,14 @@ int main(void) {
     } else if (!strcmp(w[0],"setxmms") && nw==2) {
       char *r=w[1]; for(int i=0;i<16;i++){ char *e=r; while(*e&&*e!=',') e++; parse128(r, e-r, guest.xmm[i]); r=e; if(*r==',') r++; } printf("-\n");
     } else if (!strcmp(w[0],"step")) {
+      // never execute an instruction that enters the host kernel (SYSCALL, SYSENTER, INT n, INTO, INT1): with arbitrary
+      // registers that is an arbitrary system call of this process (exit, fork, write to the protocol stream …)
+      if (!skip_case && guest.rip >= code_start && guest.rip < code_start + code_len) {
+        const uint8_t *c = (const uint8_t*)guest.rip; size_t left = code_start + code_len - guest.rip;
+        for (size_t k = 0; k < left && k < 15; k++) {
+          if (c[k] == 0xcd || c[k] == 0xce || c[k] == 0xf1 || (c[k] == 0x0f && k + 1 < left && (c[k+1] == 0x05 || c[k+1] == 0x34 || c[k+1] == 0x07 || c[k+1] == 0x35))) { skip_case = 1; break; }
+        }
+      }
       if (skip_case || guest_fs) { skip_case=1; printf("skip\n"); }
       else {
         guest.rflags = (guest.rflags & 0xcd5) | 0x202 | 0x100;   // status flags + DF, IF, reserved bit 1, TF
